@@ -74,6 +74,20 @@ template<int B, bool SMOOTHED> static void coarsening_case(const Pattern &pb, hx
     std::vector<Vec> AP(n,Vec(nc*B,scalar(0))); for (int i=0;i<n;++i) for (int k=0;k<n;++k) if (!hx::is_zero_value(Ad[i][k])) for (ptrdiff_t j=0;j<nc*B;++j) AP[i][j]+=Ad[i][k]*Pd[k][j];
     for (ptrdiff_t a=0;a<nc*B;++a) for (ptrdiff_t b=0;b<nc*B;++b) { scalar t=0; for (int i=0;i<n;++i) t+=Rd[a][i]*AP[i][b]; cg.push_back(Cd[a][b]); float inv=1/over; cr.push_back(SMOOTHED ? t : t*scalar((double)inv)); }   /* scaled_galerkin(..., float s): the factor is the FLOAT 1/1.5f */
     hx::prove_eq_vec(std::string("distributed coarse matrix = ")+(SMOOTHED?"R A P":"(1/over_interp) R A P")+" (assembled over the ranks)", cg, cr); },coo); }
+// near-null space across rank boundaries: on a symmetric zero-row-sum matrix with WEAK connections (anisotropic grid: -1 along x, -1/64 along y) the rows of the
+// distributed smoothed-aggregation prolongation sum to one, for every partition (weak connections -- local or remote -- belong to the filtered diagonal)
+static void sa_rowsum_case(int nx, int ny, bool weak_x, const std::vector<int> &rows, int R) { hx::CaseOptions coo; coo.max_paths=6; hx::run_case(std::string("sa_rowsum/")+(weak_x?"weakx":"weaky")+"/grid"+std::to_string(nx)+"x"+std::to_string(ny)+"/R"+std::to_string(R)+"/rows"+pname(rows), [&]() {
+    int n=nx*ny; SCrs A; A.n=A.m=n; A.ptr.push_back(0); scalar cx = weak_x ? scalar(1)/scalar(64) : scalar(1), cy = weak_x ? scalar(1) : scalar(1)/scalar(64);
+    for (int j=0;j<ny;++j) for (int i=0;i<nx;++i) { int id=j*nx+i; scalar d=0; if (j>0) d+=cy; if (i>0) d+=cx; if (i+1<nx) d+=cx; if (j+1<ny) d+=cy; if (j>0) { A.col.push_back(id-nx); A.val.push_back(scalar(0)-cy); } if (i>0) { A.col.push_back(id-1); A.val.push_back(scalar(0)-cx); } A.col.push_back(id); A.val.push_back(d); if (i+1<nx) { A.col.push_back(id+1); A.val.push_back(scalar(0)-cx); } if (j+1<ny) { A.col.push_back(id+nx); A.val.push_back(scalar(0)-cy); } A.ptr.push_back(A.col.size()); }
+    std::vector<int> beg(R+1,0); for (int r=0;r<R;++r) beg[r+1]=beg[r]+rows[r]; typedef mp::distributed_matrix<BE> DM; std::vector<std::shared_ptr<DM>> Ps(R); std::vector<ptrdiff_t> ncl(R,0), csh(R,0);
+#ifdef HX_SYM
+    symmpi::symx_reduce()=[](int op, void *acc, const void *in) { scalar a, b; memcpy(&a,acc,8); memcpy(&b,in,8); if (op==MPI_SUM) a=a+b; else if (op==MPI_PROD) a=a*b; else if (op==MPI_MAX) a = a<b ? b : a; else if (op==MPI_MIN) a = b<a ? b : a; else throw std::runtime_error("symmpi: unsupported reduction on symbolic scalars"); memcpy(acc,&a,8); };
+#endif
+    symmpi::run(R,[&](int rank) { mp::communicator comm(MPI_COMM_WORLD); int rb=beg[rank], re=beg[rank+1], nl=re-rb; auto loc=strip(A,rb,re); DM D(comm,*loc,nl); typedef mp::coarsening::smoothed_aggregation<BE> C; C::params cp; C c(cp); std::shared_ptr<DM> P, Rr; std::tie(P,Rr)=c.transfer_operators(D); Ps[rank]=P; ncl[rank]=P->loc_cols(); csh[rank]=P->loc_col_shift(); });
+    ptrdiff_t nc=0; for (int r=0;r<R;++r) nc+=ncl[r]; std::vector<Vec> Pd(n,Vec(nc,scalar(0))); for (int r=0;r<R;++r) gather(*Ps[r],beg[r],(int)csh[r],1,Pd);
+    Vec sums, ones; for (int i=0;i<n;++i) { bool any=false; scalar t=0; for (ptrdiff_t j=0;j<nc;++j) { if (!hx::is_zero_value(Pd[i][j])) any=true; t+=Pd[i][j]; } if (any) { sums.push_back(t); ones.push_back(scalar(1)); } }
+    hx::require("distributed smoothed aggregation: some row interpolates", !sums.empty()); hx::prove_eq_vec("distributed smoothed aggregation on a zero-row-sum matrix: every interpolating row of P sums to one (constant reproduced across rank boundaries)", sums, ones); },coo); }
+
 // every distributed smoother is a splitting method for the GLOBAL matrix: the exact solution of A x = f is a fixed point of one pre- and one post-sweep on every rank
 // (the precondition of "converges for each distributed coarsening x relaxation x solver combination"; symbolic solution vector, concrete M-matrix)
 template<class P> static void set_type(P &, const std::string &) {} static void set_type(boost::property_tree::ptree &p, const std::string &nm) { p.put("type", nm.substr(nm.find('/')+1)); }
@@ -101,6 +115,7 @@ int main(int argc, char **argv) {
         if (T || k%2==1) { solve_case<mp::make_solver<A3,mp::solver::cg<BE>>>("sa+gs+cg",p,rng,pt,R,sp); solve_case<mp::make_solver<A1,mp::solver::cg<BE>>>("sa+spai0+cg-k2",p,rng,pt,R,sp2); } } }
     for (auto &p : std::vector<Pattern>{hx::band_pattern(6,1),hx::grid_pattern(3,2),hx::band_pattern(10,1),hx::grid_pattern(4,3)}) for (int R=1;R<=(T?4:3);++R) { std::vector<std::vector<int>> parts; compositions(p.n,R,{},parts); size_t k=0; for (auto &pt : parts) { ++k; bool onerow=false; for (int v : pt) onerow=onerow||v==1; if (!(T || R==1 || (p.n<=6 && k%3==1) || (onerow && k%5<2) || k%11==0)) continue;
         coarsening_case<1,false>(p,rng,pt,R); coarsening_case<1,true>(p,rng,pt,R); if (p.n<=6 || T) { coarsening_case<2,true>(p,rng,pt,R); if (k%2==0) coarsening_case<2,false>(p,rng,pt,R); } } }
+    for (int weak=0;weak<2;++weak) for (auto g : std::vector<std::pair<int,int>>{{3,3},{4,2},{2,4}}) for (int R=1;R<=3;++R) { std::vector<std::vector<int>> parts; compositions(g.first*g.second,R,{},parts); size_t k=0; for (auto &pt : parts) { ++k; if (T || R==1 || k%5==2) sa_rowsum_case(g.first,g.second,weak,pt,R); } }
     for (auto &p : std::vector<Pattern>{hx::band_pattern(5,1),hx::grid_pattern(3,2)}) for (int R=1;R<=3;++R) { std::vector<std::vector<int>> parts; compositions(p.n,R,{},parts); size_t k=0; for (auto &pt : parts) { ++k; if (!(T || R==1 || k%4==1)) continue;
         smoother_fixed_point_case<mp::relaxation::spai0<BE>>("spai0",p,rng,pt,R); smoother_fixed_point_case<mp::relaxation::damped_jacobi<BE>>("damped_jacobi",p,rng,pt,R); smoother_fixed_point_case<mp::relaxation::gauss_seidel<BE>>("gauss_seidel",p,rng,pt,R); smoother_fixed_point_case<mp::relaxation::ilu0<BE>>("ilu0",p,rng,pt,R); smoother_fixed_point_case<mp::relaxation::chebyshev<BE>>("chebyshev",p,rng,pt,R);
         if (R>1) for (const char *t : {"gauss_seidel","damped_jacobi","ilu0","spai0","iluk"}) smoother_fixed_point_case<amgcl::runtime::mpi::relaxation::wrapper<BE>>(std::string("runtime/")+t,p,rng,pt,R); } }
